@@ -1185,8 +1185,8 @@ func generate(o *hlib.Out, cfg hlib.Config) {
 	}
 	sort.Strings(unknown)
 	o.Stat("reader_families_not_covered", len(unknown))
-	if len(unknown) > 0 {
-		o.Sample("reader families of decode.D not covered by C02 (no model): " + strings.Join(unknown, " "))
+	for _, u := range unknown {
+		o.Stat("not_covered_family_"+u, 1)
 	}
 	o.Stat("reader_methods", len(methods))
 	o.Stat("reader_methods_exercised", len(methods)-missing)
